@@ -244,6 +244,13 @@ pub struct Session {
     pub client: Client,
     pub rx: futures::channel::mpsc::Receiver<String>,
     pub dbs: Arc<Databases>,
+    /// node whose clock/disk context applies while this session executes a command from a
+    /// harness task (a direct session stands for a connection-handler thread of that node)
+    pub node: Option<u32>,
+}
+
+fn node_of_dbs(d: &Arc<Databases>) -> Option<u32> {
+    REG.with(|r| r.borrow().iter().find(|(_, v)| Arc::ptr_eq(v, d)).map(|(k, _)| k.0))
 }
 
 #[derive(Clone, Debug)]
@@ -255,7 +262,7 @@ pub struct Reply {
 impl Session {
     pub fn new(dbs: &Arc<Databases>) -> Session {
         let (client, rx) = Client::new_empty_and_receiver();
-        Session { client, rx, dbs: dbs.clone() }
+        Session { client, rx, dbs: dbs.clone(), node: node_of_dbs(dbs) }
     }
     pub fn drain(&mut self) -> Vec<String> {
         let mut v = Vec::new();
@@ -265,9 +272,38 @@ impl Session {
         v
     }
     pub fn exec(&mut self, line: &str) -> Reply {
-        let r = process_request(line, &self.dbs, &mut self.client);
-        let resp = Resp::from(&r);
-        drop(r);
+        let me = kernel::me();
+        let is_node_task = with(|k| k.meta(me).and_then(|m| m.node).is_some());
+        if !is_node_task {
+            with(|k| k.ctx_node = self.node);
+        }
+        // a handler thread that panics dies alone: record it like the spawn facade does
+        let dbs = self.dbs.clone();
+        let client = &mut self.client;
+        let r = std::panic::catch_unwind(std::panic::AssertUnwindSafe(|| process_request(line, &dbs, client)));
+        let resp = match r {
+            Ok(r) => Resp::from(&r),
+            Err(p) => {
+                if kernel::tearing_down() {
+                    std::panic::resume_unwind(p);
+                }
+                let (msg, loc) = kernel::take_last_panic().unwrap_or_else(|| ("<panic>".into(), "?".into()));
+                let node = self.node;
+                with(|k| {
+                    let at = k.now;
+                    let gen = node.map(|n| k.nodes[n as usize].gen).unwrap_or(0);
+                    k.panics.push(nundb_verif_rt::kernel::PanicRecord {
+                        node,
+                        gen,
+                        task: "direct-session".into(),
+                        message: msg.clone(),
+                        location: loc.clone(),
+                        at_ns: at,
+                    });
+                });
+                Resp::Error(format!("PANIC {} at {}", msg, loc))
+            }
+        };
         let msgs = self.drain();
         Reply { resp, msgs }
     }
